@@ -369,6 +369,27 @@ def _livepatch__dict(old_dict, new_dict, modname, cache, visit_stack):
     return old_dict
 
 
+class _EmptyCell(object):
+    """
+    Type of the value that stands for the contents of an empty closure cell.
+    """
+
+
+_EMPTY_CELL = _EmptyCell()
+
+
+def _cell_contents(cell):
+    """
+    Return the contents of a closure cell, or ``_EMPTY_CELL`` if the cell is
+    empty.  A cell is empty while its variable is unbound, e.g. the target of
+    ``except ... as e`` after the handler, or a variable after ``del``.
+    """
+    try:
+        return cell.cell_contents
+    except ValueError:
+        return _EMPTY_CELL
+
+
 def _livepatch__function(old_func, new_func, modname, cache, visit_stack):
     """
     Livepatch a function.
@@ -387,8 +408,8 @@ def _livepatch__function(old_func, new_func, modname, cache, visit_stack):
     if old_func.__code__.co_freevars != new_func.__code__.co_freevars:
         return new_func
     for oldcell, newcell in zip(old_closure, new_closure):
-        oldcellv = oldcell.cell_contents
-        newcellv = newcell.cell_contents
+        oldcellv = _cell_contents(oldcell)
+        newcellv = _cell_contents(newcell)
         if type(oldcellv) != type(newcellv):
             return new_func
         if isinstance(oldcellv, (
@@ -413,8 +434,11 @@ def _livepatch__function(old_func, new_func, modname, cache, visit_stack):
     # Update the __closure__.  We can't set __closure__ because it's a
     # read-only attribute; we can only livepatch its cells' values.
     for oldcell, newcell in zip(old_closure, new_closure):
-        oldcellv = oldcell.cell_contents
-        newcellv = newcell.cell_contents
+        oldcellv = _cell_contents(oldcell)
+        newcellv = _cell_contents(newcell)
+        if newcellv is _EMPTY_CELL:
+            # Both cells are empty (checked above): nothing to update.
+            continue
         updatedv = livepatch(
             oldcellv, newcellv,
             modname=modname, cache=cache, visit_stack=visit_stack)
